@@ -85,45 +85,7 @@ func runC07(c *an.Ctx) {
 		}
 	}
 	keySaverStructure(c, saver)
-	// call sites of the saver
-	sites := p.CallSites(saver)
-	c.Count("AUTH", len(sites))
-	c.Floor("AUTH", 1)
-	for _, s := range sites {
-		call, ok := s.(*ssa.Call)
-		if !ok {
-			continue
-		}
-		fn := call.Parent()
-		fi := p.Info(fn)
-		lf := p.LockFlowOf(fn)
-		key := func(x string) string { return an.KeyOf(fn, "register:"+x) }
-		st := lf.StateAt(call, "GCAServer.mu")
-		c.Check(st == an.LsDeferred || an.Held(st), "AUTH", fn, call.Pos(), key("lock"), "the key saver is called with GCAServer.mu held", "lock state at the call")
-		X := fi.Term(call.Call.Args[len(call.Call.Args)-1])
-		facts := fi.FactsAt(call)
-		okFlag := false
-		for _, f := range facts {
-			if !f.Neg {
-				continue
-			}
-			if fld, ver, ok := mapFieldOfTerm(f.T); ok && fld == "gcaPubkeyAvailable" {
-				if ver == fi.VersionAt(call, an.Class{Root: "T:GCAServer", Path: []string{"gcaPubkeyAvailable"}}) {
-					okFlag = true
-				}
-			}
-		}
-		c.Check(okFlag, "AUTH", fn, call.Pos(), key("not-registered"), "the availability flag is known to be false in the same critical section as the store (atomic check-and-set: one winner, never replaced)", "facts "+factList(facts))
-		okV := false
-		for _, va := range verifyFacts(facts) {
-			if f, _, ok := mapFieldOfTerm(va[0]); ok && f == "gcaTempKey" {
-				if isSigningBytesOf(va[1], X) && va[2].Key() == fi.FieldOfTerm(X, "Signature").Key() {
-					okV = true
-				}
-			}
-		}
-		c.Check(okV, "AUTH", fn, call.Pos(), key("temp-key"), "glow.Verify(gcaTempKey, gr.SigningBytes(), gr.Signature) for the registration that is saved dominates the call", "facts "+factList(facts))
-	}
+	registrationOneShot(c, saver)
 	// loader: flag set only for a 32-byte file
 	for fn := range construction {
 		fi := p.Info(fn)
@@ -170,6 +132,56 @@ func runC07(c *an.Ctx) {
 	}
 	serverListAuth(c)
 	migrationStore(c)
+}
+
+// registrationOneShot: every call of the key saver happens with the server lock held, with the availability flag known
+// to be false in that same critical section, and under a temp-key signature over the registration that is saved: the
+// key (and its file) is written at most once in the life of a server directory.
+func registrationOneShot(c *an.Ctx, saver *ssa.Function) {
+	p := c.P
+	// call sites of the saver
+	sites := p.CallSites(saver)
+	c.Count("AUTH", len(sites))
+	c.Floor("AUTH", 1)
+	for _, s := range sites {
+		call, ok := s.(*ssa.Call)
+		if !ok {
+			continue
+		}
+		fn := call.Parent()
+		fi := p.Info(fn)
+		lf := p.LockFlowOf(fn)
+		key := func(x string) string { return an.KeyOf(fn, "register:"+x) }
+		st := lf.StateAt(call, "GCAServer.mu")
+		c.Check(st == an.LsDeferred || an.Held(st), "AUTH", fn, call.Pos(), key("lock"), "the key saver is called with GCAServer.mu held", "lock state at the call")
+		X := fi.Term(call.Call.Args[len(call.Call.Args)-1])
+		facts := fi.FactsAt(call)
+		okFlag := false
+		for _, f := range facts {
+			if !f.Neg {
+				continue
+			}
+			if fld, ver, ok := mapFieldOfTerm(f.T); ok && fld == "gcaPubkeyAvailable" {
+				if ver == fi.VersionAt(call, an.Class{Root: "T:GCAServer", Path: []string{"gcaPubkeyAvailable"}}) {
+					okFlag = true
+				}
+			}
+		}
+		c.Check(okFlag, "AUTH", fn, call.Pos(), key("not-registered"), "the availability flag is known to be false in the same critical section as the store (atomic check-and-set: one winner, never replaced)", "facts "+factList(facts))
+		okV := false
+		for _, va := range verifyFacts(facts) {
+			if f, _, ok := mapFieldOfTerm(va[0]); ok && f == "gcaTempKey" {
+				if isSigningBytesOf(va[1], X) && va[2].Key() == fi.FieldOfTerm(X, "Signature").Key() {
+					okV = true
+				}
+			}
+		}
+		c.Check(okV, "AUTH", fn, call.Pos(), key("temp-key"), "glow.Verify(gcaTempKey, gr.SigningBytes(), gr.Signature) for the registration that is saved dominates the call", "facts "+factList(facts))
+	}
+}
+
+func isErrorish(v ssa.Value) bool {
+	return v.Type().String() == "error"
 }
 
 // findKeySaver: the non-construction function that stores the GCA key.
@@ -253,6 +265,40 @@ func keySaverStructure(c *an.Ctx, saver *ssa.Function) {
 			}
 		}
 	}
+	// whether a registration is refused is decided from the in-memory flag (which start-up derives from a complete key
+	// file) and the request, never from probing the disk: a crash inside the saver can leave an empty or partial key
+	// file, start-up then comes up unregistered, and a refusal based on the file's existence would lock the GCA out
+	probes := []string{"os.Stat", "os.Lstat", "os.Open", "os.OpenFile", "os.ReadFile", "io/ioutil.ReadFile"}
+	regs := []*ssa.Function{saver}
+	for _, s := range p.CallSites(saver) {
+		regs = append(regs, s.Parent())
+	}
+	nRef := 0
+	for _, fn := range regs {
+		rfi := p.Info(fn)
+		for _, b := range fn.Blocks {
+			if len(b.Instrs) == 0 || b == fn.Recover {
+				continue
+			}
+			ret, ok := b.Instrs[len(b.Instrs)-1].(*ssa.Return)
+			if !ok || len(ret.Results) == 0 {
+				continue
+			}
+			if !isErrorish(ret.Results[len(ret.Results)-1]) || isConstTerm(rfi.Term(ret.Results[len(ret.Results)-1]), "nil") {
+				continue
+			}
+			nRef++
+			cond, _, _ := controllingCondition(p, rfi, b)
+			bad := ""
+			for _, pr := range probes {
+				if strings.Contains(cond, pr+"#") || strings.Contains(cond, pr+"(") {
+					bad = pr
+				}
+			}
+			c.Check(bad == "", "PERSIST", fn, ret.Pos(), an.KeyOf(fn, "refusal-not-from-disk-probe"), "a registration is refused because of the in-memory registration flag, the request or a failed write, never because a file exists on disk (after a crash inside the key write the file exists but start-up comes up unregistered: the GCA must still be able to register)", "refusal controlled by "+short(cond))
+		}
+	}
+	c.Count("REFUSAL", nRef)
 	// every successful return of the saver has set both the key and the flag
 	for _, f := range []string{"gcaPubkey", "gcaPubkeyAvailable"} {
 		var stores []*ssa.Store
